@@ -196,6 +196,7 @@ fn dr_insert(sh: Shape) {
 harness!(dr_insert__u4f, dr_insert, U4F);
 harness!(dr_insert__s8_4a, dr_insert, S8_4A);
 harness!(dr_insert__s8_8g4, dr_insert, S8_8G4);
+harness!(dr_insert__s8m0_4a, dr_insert, S8M0_4A);
 
 fn dr_remove(sh: Shape) {
     let (mut m, mut lg) = start(sh);
@@ -218,6 +219,7 @@ fn dr_remove(sh: Shape) {
 harness!(dr_remove__s8_4a, dr_remove, S8_4A);
 harness!(dr_remove__s8_4one, dr_remove, S8_4ONE);
 harness!(dr_remove__s8_8g4, dr_remove, S8_8G4);
+harness!(dr_remove__s8m0_4a, dr_remove, S8M0_4A);
 
 fn dr_clear_drop(sh: Shape) {
     let (mut m, lg) = start(sh);
